@@ -67,3 +67,14 @@ package common
 //@ ensures result == fr_of_int(le_int(sha256(cat(old(tr(t)), bseq(label)))) % R_MOD)
 //@ ensures tr(t) == cat(bseq(label), frle(result))
 //@ modifies *(t.buff), hcontent(t.state)
+
+// ---- powers of a challenge (C02)
+
+//@ func PowersOf
+//@ props C02
+//@ prelude field frpow
+//@ requires degree >= 1
+//@ ensures fresh(result) && len(result) == degree
+//@ ensures forall k int :: 0 <= k && k < degree ==> result[k] == frpow(x, k)
+//@ loop 0 invariant 1 <= i && i <= degree && len(result) == degree && fresh(result)
+//@ loop 0 invariant forall k int :: 0 <= k && k < i ==> result[k] == frpow(x, k)
